@@ -9,8 +9,8 @@ Local Open Scope nat_scope.
 
 Ltac rst := cbn [write read1 read2 slots wpc rpc nw n1 n2 wseq rseq recv
                  set_slots set_slot set_counts set_wpc set_rpc add_recv
-                 mark payload slept rlock tk parked1 woken1 bc wt wparked wwoken fillseq
-                 sl_lists sl_fill sl_mark sl_writer sl_rlock] in *.
+                 mark payload pm c_one c_multi c_resps slept rlock tk parked1 woken1 bc wt wparked wwoken fillseq
+                 sl_lists sl_fill sl_mark sl_clear sl_writer sl_rlock] in *.
 
 Fixpoint sumf (f : nat -> nat) (n : nat) : nat := match n with O => 0 | S m => sumf f m + f m end.
 
